@@ -131,9 +131,9 @@ def judge(chk, tally, scens, rows, obs):
             with tally.lock:
                 tally.ok += 1
             continue
-        dev = None
+        dev = None          # the smallest set of named deviations under which the spec prescribes exactly this observation
         for e in s["expdev"]:
-            if e["arch"] == row["arch"] and e["a"] == a and e["b"] == b:
+            if e["arch"] == row["arch"] and e["a"] == a and e["b"] == b and (dev is None or e["dev"].count("+") < dev.count("+")):
                 dev = e["dev"]
         what = "%s %s (place=%s mode=%s est=%s%s mm=%s) prior=%s doc=%s: expected a=%s b=%s, observed a=%s b=%s%s" % (
             row["arch"], s["t"], s["place"], s["mode"], s["est"], "/forced" if row["force"] else "", s["mm"],
@@ -145,7 +145,8 @@ def judge(chk, tally, scens, rows, obs):
             n = tally.full.get(dev, 0)
             tally.full[dev] = n + 1
         if dev is None or n < 5:
-            case = {"run": {k: row[k] for k in row if k != "si"}, "expected": exp, "expected_under_deviation": s["expdev"],
+            case = {"run": {k: row[k] for k in row if k != "si"}, "expected": exp,
+                    "expected_under_deviation": [e for e in s["expdev"] if e["arch"] == row["arch"]],
                     "observed": {"a": a, "b": b, "document": o.get("d"), "event": o.get("e")}}
         else:
             case = {"t": s["t"], "arch": row["arch"]}           # bounded memory: details are kept for the first cases only
